@@ -265,7 +265,11 @@ def r3_locale_consistency(ctx, prog):
             log.append((rv,) + tuple(a))
             return C("Ok", UNIT)
         ev = AEval(funcs={}, builtins={"resolve_foreign_key": resolve, "unwrap_at": lambda rv, a: (rv[2][0] if rv[0] == "ctor" and rv[1] in ("Some", "Ok") else rv)})
-        ev.path_builtins = {"get_value_at_path": lambda a: C("Some", A("value@(%s,%s)" % (absint.fmt(a[1]), absint.fmt(a[2]))))}
+        # (the value at the recorded path, and - where a form was merged away - the plural it now sits in: p3 exists at both, every candidate
+        # is resolved; a path found nowhere is the `unwrap_at` panic, not modelled here)
+        ev.path_builtins = {"get_value_at_path": lambda a: C("Some", A("value@(%s,%s)" % (absint.fmt(a[1]), absint.fmt(a[2])))),
+                            "get_value_at_plural_path": lambda a: C("Some", A("plural@(%s,%s)" % (absint.fmt(a[1]), absint.fmt(a[2])))) if a[2] == A("p3") else C("None")}
+        ev.builtins["get_value_at"] = lambda rv, a: C("Some", A("value@(%s,%s)" % (absint.fmt(a[0]), absint.fmt(a[1]))))
         paths = L(T(S("fr"), A("p1")), T(S("en"), A("p2")), T(S("fr"), A("p3")))
         pv = {"values": A("values"), "default_locale": S("en"), "foreign_keys_paths": paths, "extensions": A("inherits")}
         pn = fn.params()
@@ -273,6 +277,11 @@ def r3_locale_consistency(ctx, prog):
         want = [(A("value@(fr,p1)"), A("values"), S("fr"), S("en"), A("p1")), (A("value@(en,p2)"), A("values"), S("en"), S("en"), A("p2")), (A("value@(fr,p3)"), A("values"), S("fr"), S("en"), A("p3"))]
         # (the inherits table, when the function has it, is handed on unchanged)
         log = [tuple(x for x in c if x != A("inherits")) for c in log if "extensions" not in pn or A("inherits") in c]
+        both = [c for c in log if c[0] == A("plural@(fr,p3)")]
+        log = [c for c in log if c[0] != A("plural@(fr,p3)")]
+        if ctx.ast.fn(PM, "get_value_at_plural_path") is not None and len(both) != 1:
+            r.viol("R3:resolve_foreign_keys#both-candidates", "a recorded path that exists both as a key and as a form merged into a plural (`a_one` next to `a_one_one` / `a_one_other`) must have both values resolved: "
+                   "the plural candidate was resolved %d time(s)" % len(both), file=PM)
         if v == C("Ok", UNIT) and log == want:
             r.inst("resolve_foreign_keys", "for every recorded (locale, path): value.resolve_foreign_key(values, &locale, default_locale, &path)")
         else:
